@@ -57,14 +57,26 @@ def strided(n, step, corners):
     return sorted(set(range(0, n, step)) | {c for c in corners if c < n} | {n - 1})
 
 
-def cases_for(tname, tier, primary):
+def background(seed):
+    """Base values of the fields that are not being swept, picked by VERIF_SEED."""
+    ids = ["a1b2c3", "3c4d5e", "0102ff", "f0e1d2", "00ff10", "7e8081"]
+    return {
+        "device_id": ids[seed % len(ids)],
+        "key": [0x18, 0x00, 0xFF, 0xA5, 0x07][(seed // 2) % 5],
+        "ip": [[10, 20, 30, 40], [192, 168, 1, 33], [172, 16, 254, 1], [1, 2, 3, 4]][(seed // 3) % 4],
+        "mac": [[0x02, 0x13, 0x24, 0x35, 0x46, 0x57], [0xBC, 0xFF, 0x4D, 0x4A, 0x56, 0x79], [0xFE, 0xDC, 0xBA, 0x98, 0x76, 0x54]][(seed // 5) % 3],
+    }
+
+
+def cases_for(tname, tier, primary, seed=0):
     """Field dicts for one device type. `primary` types get the wide sweeps in quick."""
     fam = B.TYPES[tname][1]
+    bg = background(seed)
     full = tier == "thorough"
     wide = full or primary
-    bv = list(range(256)) if full else (QV if primary else [0, 127, 128, 255])
+    bv = list(range(256)) if full else QV
     cs = [{}]
-    base_id = bytes.fromhex("a1b2c3")
+    base_id = bytes.fromhex(bg["device_id"])
     for pos in range(3):
         for v in bv:
             d = bytearray(base_id)
@@ -74,12 +86,12 @@ def cases_for(tname, tier, primary):
         cs.append({"key": v})
     for pos in range(4):
         for v in bv:
-            ip = [10, 20, 30, 40]
+            ip = list(bg["ip"])
             ip[pos] = v
             cs.append({"ip": ip})
     for pos in range(6):
         for v in bv:
-            mac = [0x02, 0x13, 0x24, 0x35, 0x46, 0x57]
+            mac = list(bg["mac"])
             mac[pos] = v
             cs.append({"mac": mac})
     for n in (names() if wide else names()[::9]):
@@ -87,8 +99,8 @@ def cases_for(tname, tier, primary):
     for on in (True, False):
         cs.append({"on": on})
     if fam in ("heater", "plug"):
-        W = range(65536) if full else (strided(65536, 97, W_CORN) if primary else W_CORN)
-        T = range(86400) if full else (strided(86400, 61, T_CORN) if primary else T_CORN)
+        W = range(65536) if full else (strided(65536, 17, W_CORN) if primary else strided(65536, 257, W_CORN))
+        T = range(86400) if full else (strided(86400, 13, T_CORN) if primary else strided(86400, 199, T_CORN))
         for w in W:
             cs.append({"watts": w, "on": True})
         if fam == "heater":
@@ -107,7 +119,7 @@ def cases_for(tname, tier, primary):
         for on, m, f, s in itertools.product((True, False), B.MODES, B.FANS, (True, False)):
             for temp, target in ((281, 24), (0, 0), (65535, 255), (256, 16)):
                 cs.append({"on": on, "mode": m, "fan": f, "swing": s, "temp": temp, "target": target})
-        for t in (range(65536) if full else strided(65536, 97, [0, 1, 9, 10, 255, 256, 281, 1000, 32767, 32768])):
+        for t in (range(65536) if full else strided(65536, 17, [0, 1, 9, 10, 255, 256, 281, 1000, 32767, 32768])):
             cs.append({"temp": t})
         for t in range(256):
             cs.append({"target": t, "temp": (t * 257) & 0xFFFF})
@@ -117,23 +129,24 @@ def cases_for(tname, tier, primary):
     # pairwise corners between neighbouring identity fields
     for k, ipb, macb in itertools.product((0, 0xFF), (0, 0xFF), (0, 0xFF)):
         cs.append({"key": k, "ip": [ipb, 1, 2, ipb], "mac": [macb, 1, 2, 3, 4, macb], "device_id": "%02x00%02x" % (macb, k)})
-    return cs
+    # every case runs against the seeded background unless it sweeps that field itself
+    return [dict(bg, **c) for c in cs]
 
 
 PRIMARY = {"V2_ESP", "POWER_PLUG", "BREEZE", "RUNNER"}
 
 
-def all_cases(tier):
+def all_cases(tier, seed=0):
     out = []
     for tname in B.TYPES:
-        for f in cases_for(tname, tier, tname in PRIMARY):
+        for f in cases_for(tname, tier, tname in PRIMARY, seed):
             out.append((tname, f))
     return out
 
 
 def jobs(tier, seed):
     n = 64 if tier == "thorough" else 16
-    return [{"tier": tier, "i": i, "n": n} for i in range(n)]
+    return [{"tier": tier, "seed": seed, "i": i, "n": n} for i in range(n)]
 
 
 def judge(res, tname, f, got):
@@ -154,7 +167,7 @@ BATCH = 32
 def run_job(job):
     res = Res()
     set_zone("UTC")
-    cases = all_cases(job["tier"])[job["i"]::job["n"]]
+    cases = all_cases(job["tier"], job.get("seed", 0))[job["i"]::job["n"]]
     with Clock(1_700_000_000.0):
         bw = BridgeWorld(1)
         try:
